@@ -48,6 +48,9 @@ type WorkerPool struct {
 
 	// submitMutex makes Submit (running check + enqueueing) atomic with respect to Shutdown.
 	submitMutex syncutils.RWMutex
+
+	// startMutex serializes Start calls (a Start waits for the previous generation without holding mutex).
+	startMutex syncutils.Mutex
 }
 
 // New creates a new WorkerPool with the given name and returns it.
@@ -67,17 +70,25 @@ func New(name string, opts ...options.Option[WorkerPool]) *WorkerPool {
 
 // Start starts the WorkerPool.
 func (w *WorkerPool) Start() *WorkerPool {
+	w.startMutex.Lock()
+	defer w.startMutex.Unlock()
+
+	if w.IsRunning() {
+		return w
+	}
+
+	// wait for the previous generation (if any) to be gone. It needs the mutex to finish (the dispatcher and the
+	// workers ask IsRunning), so the wait must not hold it; only Start starts a generation, and Start calls are
+	// serialized, so none can appear in between.
+	w.ShutdownComplete.Wait()
+
 	w.mutex.Lock()
 	defer w.mutex.Unlock()
 
-	if !w.isRunning {
-		w.ShutdownComplete.Wait()
+	w.isRunning = true
 
-		w.isRunning = true
-
-		w.startDispatcher()
-		w.startWorkers()
-	}
+	w.startDispatcher()
+	w.startWorkers()
 
 	return w
 }
